@@ -176,27 +176,44 @@ NOT_YET = {}
 
 # sub-checks added after the seeded waves (DESIGN.md section 9); appended to the level text
 ADDENDA = {
-    'C01': ' A dotted segment inside Path(...) is part of the menu.',
-    'C02': ' Sub-check literal-arguments: 24 kinds of literal (container subclasses, namedtuple, non-containers, plain containers) x 6 wrappers x 14 argument '
-           'positions on a recording target: everything but plain containers must arrive as the very same object.',
-    'C03': ' Sub-check object-reuse: 22 specs with list / dict / tuple arguments x 10 composite templates, one shared object against separate equal objects.',
-    'C05': ' Sub-check long-values: 13 container kinds of 150 items (subclasses with their own repr, unsorted insertion order) x 4 positions x 6 failing specs; '
-           'the alphabet includes callables that call glom() themselves (and render the inner error before re-raising it).',
-    'C06': ' The pool includes Vars() specs without keyword defaults.',
+    'C01': ' A dotted segment inside Path(...) is part of the menu. Sub-check object-keys: 14 kinds of non-string mapping key (namedtuples, tuple / frozenset subclasses, '
+           'numbers, None, bytes, dotted and starred strings) x 2 levels x missing-key position x 4 spellings.',
+    'C02': ' Sub-checks literal-arguments (24 kinds of literal x 6 wrappers x 14 argument positions on a recording target: everything but plain containers must arrive as the '
+           'very same object), per-item (every expression of <= 2 steps over three targets inside ONE call against the three separate calls) and arguments-from-target '
+           '(14 kinds of value fetched by a nested T x 8 positions: evaluated once, passed by identity). Operands include the twins 2 / 2.0 / True.',
+    'C03': ' Sub-checks object-reuse (22 specs with container arguments x 10 composite templates, one shared object against separate equal objects) and invoke-builders '
+           '(all derivation histories of depth <= 3 over 8 builder calls applied to any earlier node, with and without evaluation in between).',
+    'C04': ' The catalogue includes falsy, final (not subclassable), read-only-args and sealed exception classes; sub-check glom-detected crosses 21 failures that glom '
+           'detects itself with 19 positions in which the failing spec is evaluated.',
+    'C05': ' Sub-check long-values: 15 container kinds (150 items, subclasses with their own repr, unsorted insertion order, 8-9 nesting levels) x 4 positions x 6 failing specs; '
+           'the alphabet includes bare T links, callables that call glom() themselves (and render the inner error before re-raising it) and failures recovered by a '
+           'default as the last child of a spec that raises itself.',
+    'C06': ' The pool includes Vars() specs without keyword defaults, a default list that cannot be completed and opaque leaves under ** followed by iteration.',
     'C07': ' Sub-checks entry-points (all call histories of depth <= 3 (4) over Spec.glom(scope=) / glom(t, spec, scope=) x 4 call scopes x 4 Spec scopes on ONE Spec object, '
-           'and Iter().first(key)) and simultaneous-binding (every S / Let binder with 2-3 keywords whose values read sibling names).',
+           'and Iter().first(key)), simultaneous-binding (every S / Let binder with 2-3 keywords whose values read sibling names) and binder-reuse (one binder whose value '
+           'is a container literal reading the scope, evaluated under two bindings in one call).',
     'C08': ' Lazy Iter().map(X) below a wrapper that is a non-last chain link (consumed by a later step or after glom() returned) and all linear '
            '(wrapper, container) spines of 3 (4) levels are part of the term space; targets have two distinct items per level.',
-    'C09': ' Every accepted case is repeated on the same Match object after the caller modified the first result in place (mutable Optional defaults included).',
-    'C10': ' Sub-check reuse-histories: one combinator object evaluated over all ten targets in both orders (every ordered pair of targets).',
-    'C11': ' Wildcard destinations: four kinds of value (literal, spec reading the target, list / dict literal), one value object shared by all matches, targets in which one container is reached twice.',
-    'C12': ' Wildcard destinations: ignore_missing with a miss in the middle of the broadcast, parent keys named x / X, targets in which one container is reached twice.',
-    'C13': ' Eight families (incl. a registered diamond bottom with an unregistered subclass, all 6 registration orders); register-X, register-Y, register-X-again histories also in the quick tier; '
-           'an object created by missing= during a Glommer call is observed as well.',
-    'C15': ' Sub-spec kinds T, path, [T], [x] with x yielding SKIP / STOP at a marked element.',
-    'C17': ' Terminals include first(key=) selecting an item that is itself falsy.',
-    'C19': ' Targets and literal specs with non-string keys (numeric vs lexicographic order); semantically malformed targets (unhashable key, impossible date, 5000-digit integer, 100000 nesting levels).',
-    'C20': ' The pool (16 entries) includes two different recursive specs using one Ref name and calls through a Glommer whose registry differs from the module registry.',
+    'C09': ' Every accepted case is repeated on the same Match object after the caller modified the first result in place (mutable Optional defaults included); predicates '
+           'raising arbitrary exceptions, callables without __name__, bytes targets and bytes patterns, NaN.',
+    'C10': ' Sub-check reuse-histories: one combinator object evaluated over all ten targets in both orders (every ordered pair of targets); double negation with ~.',
+    'C11': ' Values include T and [T, lit] (target-dependent); indexes below -len. Wildcard destinations: four kinds of value (literal, spec reading the target, list / dict '
+           'literal), one value object shared by all matches, targets in which one container is reached twice.',
+    'C12': ' A present element that cannot be deleted must raise even under ignore_missing where Python distinguishes the two (T spellings). Wildcard destinations: ignore_missing '
+           'with a miss in the middle of the broadcast, parent keys named x / X, targets in which one container is reached twice.',
+    'C13': ' Eight families (incl. a registered diamond bottom with an unregistered subclass, all 6 registration orders); register-X, register-Y, register-X-again histories also '
+           'in the quick tier; operations switched off with False and re-registered; an object created by missing= during a Glommer call is observed as well.',
+    'C14': ' The T spellings are also run rooted at a scope variable (S[v]...); side menu with falsy objects that have children.',
+    'C15': ' Sub-spec kinds T, path, [T], [x] with x yielding SKIP / STOP at a marked element; the same target object is extended by the caller and evaluated again.',
+    'C16': ' Aggregators with a non-zero start value, equal values of different types and NaN as items, every result is modified by the caller before the next evaluation; '
+           'an inner Group as non-last Pipe step of an outer Group.',
+    'C17': ' Stages include windowed(0) and limit(0); terminals include first(key=) selecting an item that is itself falsy.',
+    'C18': ' The constructed object is compared with the steps as written (not only with its own round trip); Paths with a bare root followed by T chunks; strings with both quote characters.',
+    'C19': ' Targets and literal specs with non-string keys; semantically malformed targets (unhashable key, impossible date, 5000-digit integer, 100000 nesting levels); sub-checks '
+           'text-forms (41 texts that are well-formed in several formats with different meanings, read with the loader of the declared format) and call-histories (all '
+           'sequences of 1-2 (3) in-process CLI calls from a menu of 11).',
+    'C20': ' The pool (19 entries) includes two different recursive specs using one Ref name, one spec with scope variables written and read around a scheduling point, an '
+           'uncopyable GlomError raised two call levels down (the outer message must start with the outer target) and calls through a Glommer whose registry differs from the module registry.',
 }
 
 
